@@ -18,8 +18,8 @@ exactly when the primitive returns an error value (`…_errors_iff`).
 
 Second half (the VM after a failed evaluation): TRUE of the code since the D5 fix (the error path of
 `call_thunk_top`/`execute_io_top` pops the values the failed run left) and proved as `reset_restores` /
-`history_clean_partial` (top-level evaluations; a failing *host call of a Gluon function* still leaves its
-frames and values: `host_call_error_leaves`, `history_clean_fails`, finding D16); the old rule (`reset_stack` alone) is kept as `reset_old_rule_frames_only`,
+`history_clean` (every step kind, including failing host calls of Gluon functions since /repo dd1aca2; old rule:
+`host_call_old_rule_leaves`, `history_clean_old_rule_fails`); the old rule (`reset_stack` alone) is kept as `reset_old_rule_frames_only`,
 `reset_restores_old_rule_fails`, `reset_restores_old_rule_iff`, `history_old_rule_leaks`.
 -/
 import GluonModel.Prims
@@ -363,21 +363,22 @@ theorem reset_restores (s : Stack) (ops : List Op) :
     resetFixed s.frames.length s.values (s.run ops) = s :=
   resetFixed_after_run s ops
 
-/-- Hence any interleaving of failing and succeeding top-level evaluations (`run_expr`) leaves the thread as a
-    fresh one.  `_partial`: histories without failing host calls of Gluon functions, see `history_clean_fails`. -/
-theorem history_clean_partial (steps : List Step) (s : Stack) (h : ∀ st ∈ steps, st.topLevel = true) :
-    runHistory resetFixed steps s = s :=
-  history_fixed steps s h
+/-- **Main theorem.** Any interleaving of succeeding evaluations, failing top-level evaluations (`run_expr`,
+    IO actions) and failing host calls of Gluon functions (`Function::call`) leaves the thread exactly as a
+    fresh one: every step kind of the model is clean (error paths: thread.rs:1137-1151, :1167-1179,
+    api/function.rs:460-476). -/
+theorem history_clean (steps : List Step) (s : Stack) : runHistory resetFixed steps s = s :=
+  history_fixed steps s
 
-/-- Full statement (all kinds of evaluation, including host calls of Gluon functions) is FALSE on the unchanged
-    tree (D16): `Function::call` → `call_first` (vm/src/api/function.rs:445-464) propagates the error with `?`
-    without `reset_stack`: the frames and values of the failed call stay. -/
-theorem host_call_error_leaves (reset : Nat → Nat → Stack → Stack) (s : Stack) (d v : Nat) :
-    (stepWith reset s (.hostFail d v)).frames.length = s.frames.length + d ∧
-    (stepWith reset s (.hostFail d v)).values = s.values + v :=
+/-! Old rule (before /repo dd1aca2: `call_first` propagated the error with `?`, no `reset_stack`) — regression. -/
+
+theorem host_call_old_rule_leaves (reset : Nat → Nat → Stack → Stack) (s : Stack) (d v : Nat) :
+    (stepWithOldHost reset s (.hostFail d v)).frames.length = s.frames.length + d ∧
+    (stepWithOldHost reset s (.hostFail d v)).values = s.values + v :=
   hostFail_leaves reset s d v
 
-theorem history_clean_fails : ∃ steps, runHistory resetFixed steps Stack.base ≠ Stack.base :=
+theorem history_clean_old_rule_fails :
+    ∃ steps, runHistoryOldHost resetFixed steps Stack.base ≠ Stack.base :=
   ⟨[.hostFail 2 3], by decide⟩
 
 /-! Old rule (before the D5 fix: `reset_stack` alone) — regression statements. -/
@@ -404,9 +405,9 @@ theorem reset_restores_old_rule_iff (s : Stack) (ops : List Op) :
   · intro h; simp [h]
 
 /-- Under the old rule the leaks of the failed runs added up over a history; successful runs reclaimed nothing. -/
-theorem history_old_rule_leaks (steps : List Step) (s : Stack) (h : ∀ st ∈ steps, st.topLevel = true) :
+theorem history_old_rule_leaks (steps : List Step) (s : Stack) :
     runHistory resetStack steps s = ⟨s.frames, s.values + leakSum steps⟩ :=
-  Proofs.Frames.history_leaks steps s h
+  Proofs.Frames.history_leaks steps s
 
 /-! ## Non-vacuity -/
 
